@@ -98,7 +98,12 @@ def check_string(s, names, mode, win, out, stream, converse=False):
         if magic:
             return
     else:
-        pat = F.escape(s) if mode == 'fn' else G.escape(s, unix=not win)
+        if mode == 'fn':
+            pat = F.escape(s)
+        elif not win and len(s) % 2:
+            pat = G.escape(s)             # default `unix=None`: this host's rules, i.e. Unix here
+        else:
+            pat = G.escape(s, unix=not win)
     case = {'s': s, 'hex': s.encode('utf-8', 'surrogatepass').hex(), 'pattern': pat, 'flags': names, 'mode': mode, 'win': win,
             'converse': converse, 'stream': stream}
     try:
@@ -217,6 +222,7 @@ def run_allflags(desc):
     return out
 
 
+UNIX_UNC_LIKE = ['//srv/sh*re/file', '//a/b', '//s?v/x[y]/f', '//srv/lo[gx]s/file', '//!a/-b/~c', '//a*/b']
 WIN_SHAPES = ['c:/', 'c:', 'C:/a', 'c:\\a', '//host/share/', '//host/share/a', '\\\\host\\share\\a', '//?/UNC/h/s/a', '//?/c:/a',
               '//./c:/a', '//h{a,b}/s|t/a', '//?/GLOBAL/UNC/h/s/a', '//h[a]/s*/x', 'c:a', '/a', '//a']
 
@@ -226,7 +232,8 @@ def run_hyp(desc):
     out = Outcome()
     text = st.one_of(st.text(alphabet=ALPHA, min_size=1, max_size=24),
                      st.tuples(st.sampled_from(WIN_SHAPES), st.text(alphabet=ALPHA, max_size=6)).map(lambda t: t[0] + t[1]),
-                     st.text(alphabet=ALPHA + ['x', '1', '^', '+', ' ', '\t'], min_size=1, max_size=10))
+                     st.text(alphabet=ALPHA + ['x', '1', '^', '+', ' ', '\t'], min_size=1, max_size=10),
+                     st.tuples(st.sampled_from(UNIX_UNC_LIKE), st.text(alphabet=ALPHA, max_size=3)).map(lambda t: t[0] + t[1]))
 
     @seed(desc['seed'])
     @util.hyp_settings(desc['n'], shrink=False)
